@@ -1894,6 +1894,25 @@ def mon_c18(im, p):
     ns = im.ns
     src = p['src']
     fails = []
+    if p.get('pre'):
+        # earlier calls on the same parser: texts rejected on a later line (after complete statements were read), rejected with
+        # brackets open, list_names generators abandoned midway, successful evaluations of other programs - all mentioning names
+        # that `src` does not
+        im = sqimpl.Impl(ns)
+        keep = []
+        for api, text, k in p['pre']:
+            try:
+                if api == 'names':
+                    it = iter(im.p.list_names(text))
+                    keep.append(it)
+                    for _ in range(k):
+                        next(it)
+                elif api == 'parse':
+                    im.p.parse(text)
+                else:
+                    im.p.eval(text, {'zq2': 100, 'zq3': 2, '%zq 4%': 1, 'zq5': [1]}, max_ops_evaluated=300)
+            except Exception:
+                pass
     try:
         listed = list(im.p.list_names(src))
     except ns.exc.ParserError:
